@@ -90,6 +90,9 @@ func seqCases(prop, tier string, seed uint64) []Case {
 	for _, wc := range witnessCases(prop) {
 		cases = append(cases, wc)
 	}
+	if prop == "C13" || prop == "C12" {
+		cases = append(cases, shapeCases(prop, tier, cfgs)...)
+	}
 	for i := 0; i < n; i++ {
 		cfg := cfgs[i%len(cfgs)]
 		st := steps/2 + r.Intn(steps/2+1)
@@ -385,7 +388,10 @@ func (h *hist) c13Check(op Op) bool {
 		for _, x := range want {
 			wantSet[x] = true
 		}
-		for _, n := range []int{0, 1, 2, len(want) - 1, len(want), len(want) + 1} {
+		for _, n := range []int{0, 1, 2, len(want) - 1, len(want), len(want) + 1, 64, 100, 255, 256, 1000} {
+			if n > 2 && n > len(want)+1 && n != len(want)+1 && len(want) < 50 {
+				continue // the large limits are for the large directories
+			}
 			if n < 0 {
 				continue
 			}
@@ -830,4 +836,43 @@ func init() {
 		Assumptions: []string{"expected content comes from the reference model while the history agrees with it, otherwise from the raw member bytes (plain configurations)"}}
 	propMeta["C07"] = PropMeta{Level: "exploration", Rule: histRule + " biased to moves and delete-recreate; C07 monitor (end of history): for j in all/sampled record prefixes: index of the first j records, then replay of the whole tape without wiping: no error, tree == from-scratch rebuild, a further pass changes no row; j=R uses a copy of the live index",
 		Assumptions: []string{}}
+}
+
+// shapeCases: fixed histories for shapes the random generator does not reach: a directory with hundreds of children, a path that
+// is dozens of levels deep and several hundred bytes long; each followed by renames and removals of the whole thing.
+func shapeCases(prop, tier string, cfgs []Cfg) []Case {
+	var out []Case
+	sizes := []int{70, 300}
+	if tier == "thorough" {
+		sizes = []int{70, 130, 257, 300, 1001}
+	}
+	for i, n := range sizes {
+		var ms []Op
+		for k := 0; k < n; k++ {
+			m := Op{K: "file", A: fmt.Sprintf("/w/f%04d", k), Perm: 0o644, Len: k % 40, Dist: "text", DSeed: uint64(k) + 1}
+			if k%17 == 3 {
+				m = Op{K: "dir", A: fmt.Sprintf("/w/d%04d", k), Perm: 0o755}
+			}
+			ms = append(ms, m)
+		}
+		ops := []Op{{K: "mkdir", A: "/w", Perm: 0o755}, {K: "mkdir", A: "/wx", Perm: 0o755}, {K: "archive", Members: ms, DSeed: 5}, {K: "list", A: "/w", N: -1},
+			{K: "create", A: "/w/d0003/inner", Len: 10, Dist: "text", DSeed: 9}, {K: "rename", A: "/w", B: "/w2"}, {K: "list", A: "/w2", N: 100}, {K: "remove", A: "/w2/f0001"},
+			{K: "rename", A: "/w2", B: "/wx/moved"}, {K: "removeall", A: "/wx/moved"}, {K: "list", A: "/", N: -1}}
+		pb, _ := json.Marshal(seqP{Cfg: cfgs[i%len(cfgs)], Ops: ops})
+		out = append(out, Case{ID: fmt.Sprintf("%s-wide-%d", strings.ToLower(prop), n), Seed: uint64(n), Kind: "random", P: pb})
+	}
+	depths := []int{12, 40}
+	for i, d := range depths {
+		p := ""
+		for k := 0; k < d; k++ {
+			p += fmt.Sprintf("/level-%02d-abcdefghij", k)
+		}
+		top := "/level-00-abcdefghij"
+		ops := []Op{{K: "mkdirall", A: p, Perm: 0o755}, {K: "create", A: p + "/leaf", Len: 600, Dist: "text", DSeed: 3}, {K: "stat", A: p + "/leaf"}, {K: "list", A: p, N: -1},
+			{K: "chmod", A: p, Perm: 0o700}, {K: "rename", A: top, B: "/renamed-top"}, {K: "read", A: "/renamed-top" + strings.TrimPrefix(p, top) + "/leaf"},
+			{K: "mkdir", A: "/other", Perm: 0o755}, {K: "rename", A: "/renamed-top", B: "/other/deep"}, {K: "removeall", A: "/other/deep" + strings.TrimPrefix(p, top)}, {K: "removeall", A: "/other"}}
+		pb, _ := json.Marshal(seqP{Cfg: cfgs[(i+1)%len(cfgs)], Ops: ops})
+		out = append(out, Case{ID: fmt.Sprintf("%s-deep-%d", strings.ToLower(prop), d), Seed: uint64(d), Kind: "random", P: pb})
+	}
+	return out
 }
